@@ -103,6 +103,14 @@ static void op_float_rt(const VhLine *l) {
     }
     if (n && len) {
         check_decode("float", d, len, v, n, prec, varintFloatPrecisionMantissaBits((varintFloatPrecision)prec), 0);
+        /* the decoder's answer itself, for the correspondence with the model's array decoder (Float.decFull) */
+        uint8_t *e = exact_copy(d, len);
+        double *o = calloc(n + 1, sizeof(double));
+        size_t used = varintFloatDecode(e, n, o);
+        out("used=%zu", used);
+        show("d", (const uint8_t *)o, n * 8);
+        free(o);
+        free(e);
     }
     free(d);
     free(v);
